@@ -43,7 +43,7 @@ def run_slice(ctx, path, req, limit, serial, cn, pos, out, cli, split):
             if limit is not None:
                 argv += ["-L", str(limit)]
             if pos is not None:
-                argv += ["-p", repr(pos)]
+                argv += ["--position=" + repr(pos)]      # (argparse takes '-5e-05' for an option)
             if serial:
                 argv += ["-s"]
             return run_tool(ctx, mcli.main, cwd=ctx.scratch, argv=argv, label=f"mandoline {argv[1:]} split={split}")
@@ -158,10 +158,7 @@ def check_slice(ctx, sig, m, out, cn, pos, L, names, what, taste=True):
             bad("grid_sizes", f"L{lv} grid {p.grid_sizes[lv]}")
         dxn = m.dx[lv][cn]
         eps = 1e-9 * dxn
-        # boxes containing the plane in their interior must be written exactly once; boxes that
-        # only TOUCH the plane with a face may or may not be taken (which side is included is a
-        # matter of rounding), at most once each -- but where touching boxes exist on both sides of
-        # the plane over a pixel, at least one of them must be written (no hole in the slice)
+        # the boxes the plane meets = closed test: interior boxes and boxes touching it with a face
         strict_fp, below_fp, above_fp = [], [], []
         for (blo, bhi) in m.boxes[lv]:
             a = m.geo_low[cn] + blo[cn] * dxn
@@ -181,11 +178,10 @@ def check_slice(ctx, sig, m, out, cn, pos, L, names, what, taste=True):
             for (l_, h_) in fps:
                 a_[l_[0]:h_[0] + 1, l_[1]:h_[1] + 1] = True
             return a_
+        # every box that contains the plane (closed test, touching boxes included) exactly once
         cg = Counter(got_fp)
         closed = Counter(strict_fp + below_fp + above_fp)
-        need = area(strict_fp) | (area(below_fp) & area(above_fp))
-        okfp = all(cg[k_] == v for k_, v in Counter(strict_fp).items() if k_ not in below_fp + above_fp) and \
-            all(v <= closed[k_] for k_, v in cg.items()) and not (need & ~area(got_fp)).any()
+        okfp = cg == closed
         if not okfp:
             bad("footprints", f"L{lv} footprints written {sorted(got_fp)}; boxes containing the plane {sorted(strict_fp)}, "
                 f"boxes touching it from below {sorted(below_fp)} / above {sorted(above_fp)}",
